@@ -183,6 +183,12 @@ def s1_skip():
             yield 'skip1/%s/%d/enum' % (t, i), en('E', [variant('A', 'Unnamed', unnamed(1, [['T']], [fattr(a)])), variant('B', 'Named', named(1, [['T']])), variant('C')], [dw(ts)])
             yield 'skip1/%s/%d/enum_allskipped' % (t, i), en('E', [variant('A', 'Unnamed', unnamed(1, [['T']], [fattr(a)])), variant('B', 'Named', named(1, [['T']], [fattr(a)]))], [dw(ts)])
             yield 'skip1/%s/%d/enum1' % (t, i), en('E', [variant('A', 'Unnamed', unnamed(2, [['T'], ['T']], [fattr(a), []]))], [dw(ts)])
+    # item-level skip_inner groups split over several attributes
+    yield 'skip_inner/split2', st('S', named(2, [['T'], ['u8']]), [dw(all9), dw([skip_meta('skip_inner', ['Debug'])]), dw([skip_meta('skip_inner', ['EqHashOrd'])])])
+    yield 'skip_inner/split2_rev', st('S', unnamed(2, [['T'], ['u8']]), [dw([skip_meta('skip_inner', ['Hash'])]), dw(all9), dw([skip_meta('skip_inner', ['Debug'])])], 'Unnamed')
+    yield 'skip_inner/split_variant', en('E', [variant('A', 'Named', named(2, [['T'], ['u8']]), [sub(skip_meta('skip_inner', ['Debug'])), sub(skip_meta('skip_inner', ['Hash']))]),
+                                               variant('B', 'Unnamed', unnamed(1, [['T']]), [sub('default'), sub(skip_meta('skip_inner', ['EqHashOrd']), 'incomparable') if False else sub('default') if False else sub(skip_meta('skip_inner', ['EqHashOrd']))] if False else [sub('default')])], [dw(all9)])
+    yield 'skip_inner/one_attr_two_groups_variant', en('E', [variant('A', 'Named', named(2, [['T'], ['u8']]), [sub(skip_meta('skip_inner', ['Debug']), skip_meta('skip_inner', ['Hash']), 'default')]), variant('B')], [dw(all9)])
     # attributes split over several field attributes / combined in one
     yield 'skip/multi_attr', st('S', [field('a', ['T'], [sub(skip_meta('skip', ['Debug'])), sub(skip_meta('skip', ['Hash']))]), field('b', ['u8'])], [dw(all9)])
     yield 'skip/one_attr_two', st('S', [field('a', ['T'], [sub(skip_meta('skip', ['Debug']), skip_meta('skip', ['EqHashOrd']))]), field('b', ['u8'])], [dw(all9)])
@@ -217,6 +223,10 @@ def s1_incomparable():
             yield 'inc/%s/many_units/%s' % (sh, tag), en('E', [variant('A'), mk(inc), variant('B')], [dw(ts)])
         yield 'inc/skip_mix/' + tag, en('E', [variant('A', 'Unnamed', unnamed(1, [['T']], [[sub(skip_meta('skip', ['EqHashOrd']))]])), variant('I', 'Unit', [], inc),
                                               variant('B', 'Unnamed', unnamed(1, [['T']]))], [dw(ts)])
+        # several options in one variant attribute, in every order
+        for oi, opts in enumerate(itertools.permutations([skip_meta('skip_inner', None), 'incomparable'])):
+            yield 'inc/opt_order/%d/%s' % (oi, tag), en('E', [variant('A', 'Unnamed', unnamed(1, [['T']]), [sub(*opts)]), variant('B', 'Unnamed', unnamed(1, [['T']])), variant('C', 'Named', named(1, [['u8']]))], [dw(ts)])
+            yield 'inc/opt_order_g/%d/%s' % (oi, tag), en('E', [variant('A', 'Unnamed', unnamed(1, [['T']])), variant('B', 'Named', named(2, [['T'], ['u8']]), [sub(*[skip_meta('skip_inner', ['EqHashOrd']) if not isinstance(o, str) else o for o in opts])])], [dw(ts)])
         yield 'inc/two_attrs/' + tag, en('E', [variant('A', 'Unnamed', unnamed(1, [['T']])), variant('I', 'Unit', [], inc)], [dw(ts[:1]), dw(ts[1:] or ['Debug'], ['T'])])
 
 
@@ -230,6 +240,9 @@ def disc_patterns():
     yield 'two_groups', [(['5'], 5), None, (['20'], 20), None]
     yield 'expr', [(['1', '+', '2'], 3), None, (['2', '*', '8'], 16), None]
     yield 'last', [None, None, None, (['100'], 100)]
+    yield 'late', [None, None, (['10'], 10), None]
+    yield 'late_adjacent', [None, None, (['3'], 3), None]
+    yield 'impl_expl_impl_expl', [None, (['7'], 7), None, (['9'], 9)]
 
 
 def s1_discriminant():
@@ -294,6 +307,10 @@ def s1_default():
                     vs.append(variant('V%d' % k, 'Unnamed', unnamed(1, [['T']]), a))
             yield 'default/enum/%d/%s' % (pos, sh), en('E', vs, [dw(['Default'])])
             yield 'default/enum_b/%d/%s' % (pos, sh), en('E', vs, [dw(['Default', 'Clone'], ['T'])])
+    for oi, opts in enumerate(itertools.permutations([skip_meta('skip_inner', ['Debug']), 'default', 'incomparable'])):
+        yield 'default/opt_order/%d' % oi, en('E', [variant('A', 'Unnamed', unnamed(1, [['T']])), variant('B', 'Named', named(2, [['T'], ['u8']]), [sub(*opts)])], [dw(['Default', 'Debug', 'PartialEq', 'PartialOrd'])])
+    for oi, opts in enumerate(itertools.permutations([skip_meta('skip_inner', None), 'default'])):
+        yield 'default/opt_order2/%d' % oi, en('E', [variant('A', 'Unnamed', unnamed(1, [['T']]), [sub(*opts)]), variant('B')], [dw(['Default', 'Hash', 'Clone'])])
     yield 'default/struct_skip', st('S', named(2, [['T'], ['u8']], [[sub('skip')], []]), [dw(['Default', 'Debug'])])
     yield 'default/tuple_skip', st('S', unnamed(2, [['T'], ['u8']], [[sub('skip')], []]), [dw(['Default', 'PartialEq'])], 'Unnamed')
     yield 'default/enum_empty', en('E', [variant('A', 'Unit', [], [sub('default')])], [dw(['Default'])])
